@@ -134,8 +134,11 @@ func c11(c *Ctx) {
 			for _, in := range b.Instrs {
 				if _, ok := in.(*ssa.Return); ok {
 					found := false
-					for _, in2 := range b.Instrs {
-						if u, ok := in2.(*ssa.UnOp); ok && u.Op == token.ARROW && FieldLoad(fDone)(u.X) {
+					for _, in2 := range instrsWhere(cs, func(in2 ssa.Instruction) bool {
+						u, ok := in2.(*ssa.UnOp)
+						return ok && u.Op == token.ARROW && FieldLoad(fDone)(u.X)
+					}) {
+						if instrDominates(in2, in) {
 							found = true
 						}
 					}
